@@ -69,6 +69,9 @@ def framing(rep, prog):
                 rep.ob("FRAMING", "%s|min length %d" % (f.name, minimum), lo == minimum, "Ok-capable exit at %s requires len >= %s" % (f.loc(b), lo), loc=f.loc(b))
     else:
         rep.violation("ANCHOR", "DryocBox bytes", "to_bytes/from_bytes/from_sealed_bytes not found")
+    for (ty, m, minimum) in (("dryocsecretbox::DryocSecretBox", "from_bytes", 16), ("sign::SignedMessage", "from_bytes", 64)):
+        for f in cm.find_method(prog, ty, m):
+            cm.accepts_min_len(rep, prog, f, 1, minimum, "FRAMING", "%s::%s" % (ty.split("::")[-1], m))
     rep.floor("framing pairs", n, 3)
 
 
@@ -266,6 +269,41 @@ def sized(rep, prog):
                 rep.ob("SIZED-COPY", "%s|arr[idx] store" % f.path, ok,
                        "every path to the element store passes `idx < len`/`idx < LENGTH` (%d edge(s)) or a resize to at least idx+1 (%d call(s))" % (len(safe_edges), len(grow))
                        if ok else "an element store arr[idx] is reachable with idx >= len (no dominating bound, no growing resize)", loc=c.loc())
+    # variable-length visitors that over-allocate (size hint, doubling) give back exactly the elements
+    # read: every Ok exit lies behind a resize / truncate of the container to the element counter
+    for imp in prog.impls:
+        tr = imp.get("trait") or ""
+        if not tr.endswith("de::Visitor") or "bytes_serde" not in imp["self_ty"]["t"]:
+            continue
+        for it in imp["items"]:
+            if it["name"] != "visit_seq":
+                continue
+            f0 = prog.by_key.get(it["key"])
+            if f0 is None:
+                continue
+            f = inline(prog, f0)
+            rs = [c for c in f.calls() if c.name in ("resize", "truncate") and len(c.args) >= 2 and not f.blocks[c.bb]["cleanup"]]
+            if not rs:
+                continue
+            exact, loose = [], []
+            for c in rs:
+                e = call_arg_exprs(c)[1]
+                while e.k == "cast":
+                    e = e.a
+                if e.k == "local" and counter_per_element(f, e.a):
+                    exact.append(c)
+                else:
+                    loose.append(c)
+            if not loose:
+                continue
+            oks = [b for b, kind, e in result_kind_of_ret(f) if kind != "err" and b in f.reachable(0)]
+            free = f.reachable(0, cut_blocks=[c.bb for c in exact])
+            bad = [b for b in oks if b in free]
+            rep.ob("SIZED-COPY", "%s|final length = elements read" % f0.path, bool(exact) and not bad,
+                   ("every Ok exit lies behind a resize of the container to the element counter (%d over-allocating resize(s) before it)" % len(loose))
+                   if exact and not bad else
+                   "the container is grown beyond the elements read (%s) and an Ok exit is reachable without trimming it to the element counter" % [c.loc() for c in loose][:2],
+                   loc=f.loc(bad[0]) if bad else f0.loc())
     rep.floor("slice constructors / element stores", n, 4)
 
 
